@@ -596,6 +596,24 @@ pub fn big_integers() -> Vec<String> {
             }
         }
     }
+    // sums, differences and products that just leave the i64 range: the stated fallback is the double operation on
+    // the operands' double values, which differs from rounding the exact result once
+    for a in [i64::MAX as i128, i64::MAX as i128 - 1, i64::MAX as i128 - 1000, 9223372036854775000, 1i128 << 62, (1i128 << 62) + 1, 4611686018427388417] {
+        for d in [1i128, 2, 511, 512, 513, 1023, 1024, 1025, 1536, 2000, 2047, 2048, 2049, 3071, 3072, 3073, 4096, 1 << 62, (1 << 62) + 1, (1 << 62) + 513, 4611686018427388417] {
+            out.push(format!("{}+{}", a, d));
+            out.push(format!("{}+{}", d, a));
+            out.push(format!("-{}-{}", a, d));
+            out.push(format!("(-{})-{}", a, d));
+            out.push(format!("{}-(-{})", a, d));
+            out.push(format!("(-{})+(-{})", a, d));
+        }
+        for m in [2i128, 3, 5, 7, 1025, 2049] {
+            out.push(format!("{}*{}", a, m));
+            out.push(format!("{}*{}", m, a));
+            out.push(format!("(-{})*{}", a, m));
+            out.push(format!("{}^2", a));
+        }
+    }
     out.sort();
     out.dedup();
     out
